@@ -84,6 +84,16 @@ def check(ctx):
         evs = [e for e in ps.events if e.kind == "ext_call" and e.data["callee"] in QUADRATURE]
         if len(evs) > 1:
             raise AnalysisError(f"{qs}: expected one quadrature call")
+        higher = [e for e in ps.events if e.kind == "ext_call" and e.data["callee"] in ("scipy.integrate.cumulative_simpson", "scipy.integrate.simpson", "scipy.integrate.simps", "scipy.integrate.romb")]
+        if not evs and higher:
+            # Simpson-type composite rules have negative weights on unequal panels: the running integral of a positive
+            # tabulated integrand is then not increasing and not additive over sub-tables (the trapezoid rule is both)
+            ctx.bad(
+                "C08-b", qs + ":quadrature rule" + vtag, f"{fs.file}:{higher[0].line}",
+                "the tabulated transform is the cumulative trapezoid rule over the given pressures (positive weights: increasing for a positive integrand, additive over sub-tables, equal to the builder's column)",
+                signature="rule " + higher[0].data["callee"].split(".")[-1], routine=higher[0].data["callee"],
+            )
+            continue
         if not evs:
             from .common import handrolled_trapezoid
 
